@@ -91,7 +91,12 @@
 
 use futures::future::FusedFuture;
 use futures::task;
+#[cfg(not(feature = "verif-hooks"))]
 use futures::{pin_mut, select};
+#[cfg(feature = "verif-hooks")]
+use futures::pin_mut;
+#[cfg(feature = "verif-hooks")]
+use crate::verif_select as select;
 use libc::{self, c_int, timeval};
 use nix::errno::Errno;
 use nix::fcntl;
@@ -114,7 +119,12 @@ use std::rc::Rc;
 use std::str;
 use std::task::{Context, Poll, Waker};
 use std::thread;
+#[cfg(not(feature = "verif-hooks"))]
 use std::time::{Duration, Instant};
+#[cfg(feature = "verif-hooks")]
+use std::time::Duration;
+#[cfg(feature = "verif-hooks")]
+use crate::verif::Instant;
 
 use super::env::ENV_TARGET;
 use super::error::{RedoError, RedoErrorKind};
@@ -367,6 +377,20 @@ impl JobServer {
                         // No I/O to wait on.
                         if let Some(d) = next_timer_duration {
                             debug_jobserver!("idling for {:?}", d);
+                            #[cfg(feature = "verif-hooks")]
+                            if crate::verif::active() {
+                                crate::verif::point(
+                                    "select",
+                                    &format!(
+                                        "fds= ready= want_token=0 timeout={} mt={} ch={}",
+                                        d.as_millis(),
+                                        state.my_tokens,
+                                        state.cheats
+                                    ),
+                                );
+                                crate::verif::advance_clock(d);
+                                continue;
+                            }
                             thread::sleep(d);
                             continue;
                         }
@@ -383,6 +407,50 @@ impl JobServer {
                         Vec::from_iter(state.token_wakers.iter().map(|&(id, _)| id)),
                         Vec::from_iter(rfds.fds(None))
                     );
+                    #[cfg(feature = "verif-hooks")]
+                    if crate::verif::active() {
+                        let watched: Vec<RawFd> = Vec::from_iter(rfds.fds(None));
+                        let tokfd = self.params.token_fds.0;
+                        let reply = crate::verif::point_dyn("select", || {
+                            let mut probe = FdSet::new();
+                            for fd in watched.iter().copied() {
+                                probe.insert(fd);
+                            }
+                            let mut zero: TimeVal = timeval {
+                                tv_sec: 0,
+                                tv_usec: 0,
+                            }
+                            .into();
+                            let _ = select::select(None, Some(&mut probe), None, None, Some(&mut zero));
+                            let show = |v: Vec<RawFd>| {
+                                v.iter()
+                                    .map(|fd| {
+                                        if *fd == tokfd {
+                                            "tok".to_string()
+                                        } else {
+                                            format!("job{}", state.wait_fds[fd].pid)
+                                        }
+                                    })
+                                    .collect::<Vec<String>>()
+                                    .join(",")
+                            };
+                            format!(
+                                "fds={} ready={} want_token={} timeout={} mt={} ch={}",
+                                show(watched.clone()),
+                                show(Vec::from_iter(probe.fds(None))),
+                                if state.token_wakers.is_empty() { 0 } else { 1 },
+                                next_timer_duration.map_or(-1i64, |d| d.as_millis() as i64),
+                                state.my_tokens,
+                                state.cheats
+                            )
+                        });
+                        if reply == "timer" {
+                            if let Some(d) = next_timer_duration {
+                                crate::verif::advance_clock(d);
+                            }
+                            continue;
+                        }
+                    }
                     select::select(None, Some(&mut rfds), None, None, max_delay.as_mut())
                         .map_err(RedoError::opaque_error)?;
                     debug_jobserver!("readable: {:?}", Vec::from_iter(rfds.fds(None)));
@@ -390,6 +458,8 @@ impl JobServer {
                     for fd in rfds.fds(None) {
                         if fd == self.params.token_fds.0 {
                             let mut b: [u8; 1] = [0];
+                            #[cfg(feature = "verif-hooks")]
+                            crate::verif::point("tok-read", "");
                             let read_result = try_read(self.params.token_fds.0, &mut b)
                                 .map_err(RedoError::opaque_error)?;
                             match read_result {
@@ -417,6 +487,8 @@ impl JobServer {
                         // die abnormally.  Since a child has died, that means a token has
                         // 'disappeared' and we now need to recreate it.
                         let mut b: [u8; 1] = [0];
+                        #[cfg(feature = "verif-hooks")]
+                        crate::verif::point("cheat-read", &format!("job{}", state.wait_fds[&fd].pid));
                         match try_read(self.params.cheat_fds.0, &mut b) {
                             Ok(Some(1)) => {
                                 // someone exited with _cheats > 0, so we need to compensate
@@ -661,6 +733,8 @@ impl JobServerHandle {
         let (r, w) = make_pipe(50).map_err(RedoError::opaque_error)?;
         match unsafe { unistd::fork() }.map_err(RedoError::opaque_error)? {
             ForkResult::Child => {
+                #[cfg(feature = "verif-hooks")]
+                crate::verif::point("child-start", &reason);
                 if let Err(e) = unistd::close(r) {
                     log_err!("close read end of pipe: {}\n", e);
                     process::exit(EXIT_JOB_FAILURE);
@@ -670,6 +744,8 @@ impl JobServerHandle {
                 process::exit(rv);
             }
             ForkResult::Parent { child: pid } => {
+                #[cfg(feature = "verif-hooks")]
+                crate::verif::point("fork-parent", &format!("child={} {}", pid, &reason));
                 helpers::close_on_exec(r, true).map_err(RedoError::opaque_error)?;
                 unistd::close(w).map_err(RedoError::opaque_error)?;
                 let job_state = Rc::new(RefCell::new(JobState::default()));
@@ -887,6 +963,11 @@ impl AllJobsDone {
             .map_err(RedoError::opaque_error)?
             .unwrap_or(0);
         debug_jobserver!("toplevel: GOT {} tokens and {} cheats", tokens, cheats);
+        #[cfg(feature = "verif-hooks")]
+        crate::verif::note(
+            "toplevel-tokens",
+            &format!("tokens={} cheats={} expect={}", tokens, cheats, self.params.top_level),
+        );
         if (tokens - cheats) as i32 != self.params.top_level {
             return Err(RedoError::new(format!(
                 "on exit: expected {} tokens; found {}-{}",
@@ -1096,6 +1177,8 @@ extern "C" fn timeout_handler(_: c_int) {}
 
 fn write_tokens(fd: RawFd, n: usize) -> nix::Result<()> {
     let buf: Vec<u8> = iter::repeat(b't').take(n).collect();
+    #[cfg(feature = "verif-hooks")]
+    crate::verif::point("tok-write", &format!("fd={} n={}", fd, n));
     // TODO(someday): Retry if interrupted or short write.
     unistd::write(fd, &buf)?;
     Ok(())
